@@ -2,11 +2,12 @@
     stay Coq's extracted datatypes). *)
 From Coq Require Import List ZArith.
 From Coq Require Extraction ExtrOcamlBasic.
-From Unodb Require Import Base.Lex Base.Bytes Encode.EncModel Art.ArtModel Art.ArtIter Art.ArtFault Lock.LockModel Olc.OlcTrace Olc.Protocol Qsbr.QsbrModel Qsbr.QsbrFine Lin.LinCheck Ptr.PtrShape Ptr.PtrModel Gen.GenPtrMethods.
+From Unodb Require Import Base.Lex Base.Bytes Encode.EncModel Art.ArtModel Art.ArtIter Art.ArtFault Art.ArtAlloc Lock.LockModel Olc.OlcTrace Olc.Protocol Qsbr.QsbrModel Qsbr.QsbrFine Lin.LinCheck Ptr.PtrShape Ptr.PtrModel Gen.GenPtrMethods.
 Extraction Language OCaml.
 Extraction "model.ml"
   enc_init enc_step enc_run decode_seq ty_of ty_width lex_compare f32 f64 enc_tuple comp_canon
   db0 db_get db_insert db_remove db_clear db_empty db_scan db_scan_from db_scan_range db_scan_from_pinned db_insert_allocs db_remove_allocs
+  db_blocks ins_allocs ins_frees rem_allocs rem_frees free_all
   linit lstep lrun lrun_diag node_accepts node_diag no_wait_while_holding olc_trace_ok
   qinit qstep op_enabled wait_of q_register q_unregister q_quiescent q_retire pending registered_count
   lin_ok op_ok scan_ok
